@@ -623,9 +623,19 @@ def idiom(rng, d):
     if k < 0.75:
         p = rng.choice(pre)
         return [v(), mo("|"), mo(p), v()] + ([mo("+"), v()] if rng.random() < 0.4 else []), "bar-prefix"
-    if k < 0.9:
+    if k < 0.87:
         p = rng.choice(pre)
         return [mi("P"), mo("("), S(), mo("|"), mo(p), S(), mo(")")] + ([mo("="), mn("0.5")] if rng.random() < 0.5 else []), "given-prefix"
+    if k < 0.95:
+        # an empty pair of fences followed by more of the row: f()+1, {} ∪ A, 2 f() = h() - x
+        o = rng.choice(list(MATCH))
+        head = rng.choice([[f()], [], [mn(str(rng.randint(2, 9))), f()]])
+        if not head and o == "(":
+            o = rng.choice(["{", "["])
+        kids = head + [mo(o), mo(MATCH[o]), mo(rng.choice(common)), v()]
+        if rng.random() < 0.4:
+            kids += [mo(rng.choice(common)), f(), mo("("), mo(")")] + ([mo(rng.choice(common)), v()] if rng.random() < 0.5 else [])
+        return kids, "empty-fences"
     o1, o2 = rng.sample(list(MATCH), 2)
     return [mo(o1), v(), mo(rng.choice(common)), mo(o2), v(), mo(rng.choice(common)), v(), mo(MATCH[o2]), mo(MATCH[o1]), mo(rng.choice(common)), v()], "nested-fences"
 
@@ -695,8 +705,135 @@ def idiom_shard(spec):
     return st.to_dict()
 
 
+# ---------------------------------------------------------------------------------------------
+# embellished operators: decorating an infix operator with (nested) scripts / under-over scripts does not change the bracketing of its row
+# ---------------------------------------------------------------------------------------------
+EMB = ["msub", "msup", "msubsup", "munder", "mover", "munderover"]
+
+
+def embellish(node, rng, depth):
+    for _ in range(depth):
+        tag = rng.choice(EMB)
+        scripts = [rng.choice([gen.mi(rng.choice("ijkmn")), gen.mn(str(rng.randint(0, 9)))]) for _ in range(2 if tag in ("msubsup", "munderover") else 1)]
+        node = gen.N(tag, [node] + scripts)
+    return node
+
+
+def out_tree_emb(e):
+    """like out_tree, but an embellished operator counts as its base operator"""
+    t = mml.local(e.tag)
+    if t in ("mi", "mn", "mo", "mtext"):
+        return (e.text or "")
+    if t in EMB + ["mmultiscripts"] and mml.local(base_of(e).tag) == "mo":
+        return base_of(e).text or ""
+    kids = [out_tree_emb(k) for k in e]
+    if t == "math":
+        return kids[0] if len(kids) == 1 else kids
+    if t == "mrow":
+        return kids
+    return [t] + kids
+
+
+def judge_embellished(sess, tokens, which, depths, d, seed, force_prefix_form=False):
+    """which: indices (into tokens) of infix operators to decorate; returns (kind or None, detail, ok?)"""
+    plain = tokens_to_tree(tokens, force_prefix_form)
+    rng = random.Random(seed)
+    deco = [embellish(k.copy(), rng, depths[which.index(i)]) if i in which else k.copy() for i, k in enumerate(plain)]
+    r1 = sess.call("set_mathml", gen.math(*plain).xml(), timeout=30)
+    r2 = sess.call("set_mathml", gen.math(*deco).xml(), timeout=30)
+    if r1 is None or r2 is None or r1["r"] != "ok" or r2["r"] != "ok":
+        return None, "", False
+    try:
+        a = collapse(norm_minus(out_tree_emb(ET.fromstring(r1["v"]))), d)
+        b = collapse(norm_minus(out_tree_emb(ET.fromstring(r2["v"]))), d)
+    except ET.ParseError:
+        return None, "", False
+    if a != b:
+        return "embellishment-changes-parse", "plain row %s  decorated row %s | decorated input %s" % (show(a), show(b), gen.math(*deco).xml()[:400]), True
+    return None, "", True
+
+
+def embellished_shard(spec):
+    st = core.Stats()
+    rng = random.Random(spec["seed"])
+    d = load_dict()
+    g = Gen(rng, d, usable_ops(d), usable_vars())
+    seen = set()
+    with core.Session({"TTS": "None"}) as sess:
+        for n in range(spec["n"]):
+            tokens = g.row(0, rng.randint(2, 5))
+            if not wellformed(tokens):
+                continue
+            idx = [i for i, t in enumerate(tokens) if t[1] == "infix"]
+            if not idx:
+                continue
+            which = sorted(rng.sample(idx, min(len(idx), rng.choice([1, 1, 2]))))
+            depths = [rng.choice([1, 2, 2, 3]) for _ in which]
+            sd = rng.randrange(1 << 30)
+            kind, detail, ok = judge_embellished(sess, tokens, which, depths, d, sd)
+            st.evaluations += 1
+            if not ok:
+                st.count("embellished_set_mathml_not_ok")
+                continue
+            st.count("embellished_rows_depth_%d" % max(depths))
+            st.nontrivial.add(core.h16("emb" + token_sig(tokens, d) + repr(which) + repr(depths)))
+            if kind is None:
+                continue
+            st.count("raw_" + kind)
+            if has_prefix_before_open(tokens) and judge_embellished(sess, tokens, which, depths, d, sd, force_prefix_form=True)[0] is None:
+                # classification by intervention (as in the reference-parser layer): the difference disappears when the prefix operators in front of
+                # '(' carry form='prefix' -- the recorded position-heuristic defect, which types the operator next to such a prefix operator
+                st.count("raw_position_heuristic_prefix_before_fence")
+                st.violations.append(core.violation(kind, KNOWN_POSITION_SIG, {"tokens": tokens, "context": "top"}, "same cause (seen through a decorated operator)"))
+                continue
+            ops = tuple(tokens[i][0] for i in which)
+            if ops in seen or len(seen) > 6:
+                continue
+            seen.add(ops)
+
+            def still(ts_which):
+                ts, wh, dp = ts_which
+                return judge_embellished(sess, ts, wh, dp, d, sd)[0] == kind
+            # shrink: drop tokens that are not decorated, keeping the row well formed
+            best = (tokens, which, depths)
+            changed = True
+            while changed:
+                changed = False
+                ts, wh, dp = best
+                for i in range(len(ts)):
+                    if i in wh:
+                        continue
+                    for span in (2, 1):
+                        cand = ts[:i] + ts[i + span:]
+                        if any(i <= w < i + span for w in wh):
+                            continue
+                        wh2 = [w - span if w > i else w for w in wh]
+                        if len(cand) >= 3 and wellformed(cand) and all(cand[w][1] == "infix" for w in wh2) and still((cand, wh2, dp)):
+                            best = (cand, wh2, dp)
+                            changed = True
+                            break
+                    if changed:
+                        break
+            ts, wh, dp = best
+            for j in range(len(dp)):
+                while dp[j] > 1 and still((ts, wh, dp[:j] + [dp[j] - 1] + dp[j + 1:])):
+                    dp = dp[:j] + [dp[j] - 1] + dp[j + 1:]
+            sig = "%s | %s | decorated %s depth %s" % (kind, token_sig(ts, d), ",".join("#%d" % w for w in wh), ",".join(str(x) for x in dp))
+            st.violations.append(core.violation(kind, sig, {"embellished": {"tokens": ts, "which": wh, "depths": dp, "seed": sd}},
+                                                "minimal row: %s | %s" % (" ".join(t[0] for t in ts), judge_embellished(sess, ts, wh, dp, d, sd)[1])))
+    return st.to_dict()
+
+
 def replay(witness):
     d = load_dict()
+    if "embellished" in witness:
+        w = witness["embellished"]
+        with core.Session({"TTS": "None"}) as sess:
+            toks = [tuple(t) for t in w["tokens"]]
+            kind, detail, ok = judge_embellished(sess, toks, list(w["which"]), list(w["depths"]), d, w["seed"])
+            if kind:
+                return [core.violation(kind, "%s | %s | decorated %s depth %s" % (kind, token_sig(toks, d), ",".join("#%d" % x for x in w["which"]), ",".join(str(x) for x in w["depths"])), witness, detail)]
+        return []
     if "idiom" in witness:
         kids = [gen.N(t, text=x) for t, x in witness["idiom"]]
         with core.Session({"TTS": "None"}) as sess:
@@ -739,6 +876,7 @@ def run(tier, seed):
     l1 = [{"seed": core.sub_seed(seed, PROP, "l1", i), "n": 600 if tier == "quick" else 20000} for i in range(nsh)]
     results += core.run_shards(layer1_shard, l1)
     results += core.run_shards(idiom_shard, [{"seed": core.sub_seed(seed, PROP, "idiom", i), "n": 1500 if tier == "quick" else 60000} for i in range(nsh)])
+    results += core.run_shards(embellished_shard, [{"seed": core.sub_seed(seed, PROP, "emb", i), "n": 1200 if tier == "quick" else 50000} for i in range(nsh)])
     stats, errors = core.Stats.merge(results)
     known, fixed_failures, extra_v = core.replay_findings(PROP, replay)
     stats.violations.extend(extra_v)
@@ -753,5 +891,6 @@ def run(tier, seed):
         rule="rows of the restricted grammar (single-letter variables, integers, every usable single-character dictionary operator in its infix/prefix/postfix form, implied "
              "multiplication, parentheses) at top level and inside mfrac/msqrt/msup/mtd/mfenced/munder: each operator is paired with operators of other priority classes in both "
              "orders, then random rows of 2-7 terms; MathCAT's bracketing is compared with an independent Pratt parser over the dictionary priorities and every returned mrow is "
-             "validated against the row invariants; non-trivial = set_mathml Ok and both oracles applied; distinct by (token kinds with priorities, context)",
+             "validated against the row invariants; idiom rows (function application, bars, empty fence pairs, nested fences) judged by invariants and fence matching; "
+             "metamorphic phase: decorating infix operators with 1-3 nested script / under-over elements must not change the bracketing of the row; non-trivial = set_mathml Ok and both oracles applied; distinct by (token kinds with priorities, context)",
         min_nontrivial=1000, harness_errors=errors, known_replayed=known, fixed_failures=fixed_failures)
